@@ -179,7 +179,7 @@ impl SuperVersions {
 //@ END
 
     // ---- near-verbatim (C02.4 / C16.1): history part ----
-//@ FROM src/version/super_version.rs :: impl SuperVersions :: fn upgrade_version :: OBL C02.4, C16.1, C02.14
+//@ FROM src/version/super_version.rs :: impl SuperVersions :: fn upgrade_version :: OBL C02.4, C16.1, C02.14, C07.19
 //@ SUBST `crate :: Result < ( ) >` ==> `Result<(), Error>`
 //@ SUBST `crate :: Result < SuperVersion >` ==> `Result<SuperVersion, Error>`
     fn upgrade_version<F: FnOnce(&SuperVersion) -> Result<SuperVersion, Error>>(
@@ -203,7 +203,7 @@ impl SuperVersions {
     }
 //@ END
 
-//@ FROM src/version/super_version.rs :: impl SuperVersions :: fn upgrade_version_with_seqno :: OBL C02.4, C16.1
+//@ FROM src/version/super_version.rs :: impl SuperVersions :: fn upgrade_version_with_seqno :: OBL C02.4, C16.1, C07.19
 //@ SUBST `crate :: Result < ( ) >` ==> `Result<(), Error>`
 //@ SUBST `crate :: Result < SuperVersion >` ==> `Result<SuperVersion, Error>`
     fn upgrade_version_with_seqno<
